@@ -63,7 +63,7 @@ def run(chk, b, tier):
     total = 2 * 10 ** 6 if tier == "quick" else 10 ** 8
     nchunks = 16 if tier == "quick" else 64
     per = total // nchunks
-    res = R.pmap(bulk, [(drv, R.SEED * 1000 + i, per) for i in range(nchunks)])
+    res = R.pmap(bulk, [(drv, R.SEED * 1000 + i, per) for i in range(nchunks)], chk=chk)
     per_prefix = {}
     for r in res:
         if "error" in r:
